@@ -49,6 +49,9 @@ class StoredIndex:
                 table.setdefault(hashlib.sha1(buf[a:b]).digest(), []).append(k)
             self.payload[key] = table
 
+    def stored_has_tfdt(self, key) -> bool:
+        return any(seg.tfdt is not None for seg in self.files[key].segments)
+
     def stored_decode_time(self, key, k: int) -> int:
         """Decode time of stored segment k (tfdt if present, else running sum from the first)."""
         sf = self.files[key]
